@@ -60,13 +60,14 @@ def run_check(pid):
 
 def main():
     sid = sys.argv[1]
-    wt, out = "/tmp/seed/%s" % sid, "/tmp/seed/%s-out" % sid
-    dest = os.path.join(VERIF, "seeded", sid)
+    base = os.environ.get("SEED_BASE", "/tmp/seed")
+    wt, out = "%s/%s" % (base, sid), "%s/%s-out" % (base, sid)
+    dest = os.path.join(VERIF, "seeded", sid + os.environ.get("SEED_SUFFIX", ""))
     os.makedirs(dest, exist_ok=True)
     for f in ("patch.diff", "demo.rs", "notes.md"):
         if os.path.exists(os.path.join(out, f)):
             shutil.copy(os.path.join(out, f), os.path.join(dest, f))
-    meta = {"id": sid, "breaks_property": sid.split("-")[0], "source": "independent sub-agent given only the property text and a scratch worktree"}
+    meta = {"id": sid + os.environ.get("SEED_SUFFIX", ""), "breaks_property": sid.split("-")[0], "source": "independent sub-agent given only the property text and a scratch worktree"}
     if os.path.exists(os.path.join(dest, "meta.json")):
         try:
             meta.update(json.load(open(os.path.join(dest, "meta.json"))))
